@@ -10,6 +10,9 @@ CHECKS = {
  "C14": dict(technique="TLA+ spec Scalars (register machine over exact rings, BigNum limb arithmetic in TLA+); TLC exhaustive on small complete domains with expected values replayed on all 16 scalar types in six operator forms; recorded histories validated by Trace_Scalars",
              text="TLC model-checks the bignum and ring libraries against the ring axioms, enumerates every operand pair/operation of the small domains with the canonical expected value (replayed on every scalar type and operator form), and validates seeded histories of the real types (values to 10^300+, machine ints near their limits) event by event: every result must be the exact ring element in canonical form and every comparison the mathematical answer.",
              note="Trusted: TLC, BigNum.tla/Rings.tla (model-checked), decimal->limb chunking in the harness, Bezout witnesses re-multiplied by TLC. Machine-integer ops only inside the representable envelope.", design="§3 C14"),
+ "C15": dict(technique="TLA+ spec EucOps (relational contracts over exact rings: a=qb+r with norm decrease, exact rounding, gcd/Bezout/lcm, units, normalisation); TLC shows the contracts satisfiable and answer-determining on complete small domains; TLC-enumerated operand domains + random operands to 10^700 run through the library and every answer validated by Trace_EucOps",
+             text="Every Euclidean operation of 20 implementation types is recorded with its answer and TLC evaluates the mathematical contract on it using exact limb arithmetic; the contracts themselves are model-checked against a reference implementation and for uniqueness of the accepted answer on complete small domains.",
+             note="Trusted: TLC, BigNum/Rings libraries (model-checked), cofactors for divisibility computed by the library's own division and re-multiplied by TLC.", design="§3 C15"),
 }
 PENDING = "not yet bound to the specification in this round (see DESIGN.md section 3 for the planned spec and binding)"
 m = {
